@@ -713,6 +713,12 @@ def _entry_pool(rng, n):
                                               else [1, 3])
         if rng.random() < 0.15:
             e["relative_match_len"] = rng.choice([0.5, 0.8])
+        if rng.random() < 0.15:
+            # several #labels, some typed twice (their order and multiplicity are part of the
+            # result)
+            labs = rng.choice(["#work #urgent #work #berlin", "#a #b #a", "#x #y #z #y", "#todo",
+                               "#b #a", "#fun #fun #work", "#q1 #q2 #q3 #q4 #q1"])
+            e["text"] = rng.choice(["%s %s" % (t, labs), "%s %s" % (labs, t)])
         r = rng.random()
         if r < 0.15:
             e["scorer"] = "dummy"
